@@ -175,6 +175,41 @@ Proof.
 Qed.
 Print Assumptions C17_hook_hypothesis_needed.
 
+(* ---- sessions: copies of tags (copy.copy(t), t.tagify()) used in with-blocks ------------ *)
+(* run_top: top-level statements interleaved with TCopy src dst (a new tag index with the
+   copied children and saved hook).  Restoration and the refinement to the hook-free
+   semantics extend to sessions ... *)
+Theorem C17_session_restored :
+  forall (l : list top) (s : state),
+    hook_ s <> HNone -> hook_ (fst (run_top l s)) = hook_ s.
+Proof. exact session_restored. Qed.
+Print Assumptions C17_session_restored.
+
+Theorem C17_session_children :
+  forall (l : list top) (r : recv) (s : state),
+    hook_ s = hook_of r ->
+    agree (fst (run_top l s)) (fst (sem_top r l (abs s))) /\
+    snd (run_top l s) = snd (sem_top r l (abs s)).
+Proof.
+  intros l r s H. destruct (session_refines l r s (abs s) (agree_abs s) H) as (A & B & _).
+  split; assumption.
+Qed.
+Print Assumptions C17_session_children.
+
+(* ... and a copy of a tag that was never entered is an independent tag: the values displayed
+   in the copy's block are appended to the copy (in order, under the rules), the original does
+   not grow, and the object handed to the enclosing hook on exit is the copy. *)
+Theorem C17_copy_independent :
+  forall (src dst : nat) (vs : list dval) (s : state),
+    src <> dst -> prev s src = HNone -> hook_ s = HBase ->
+    let s' := fst (run_stmt (With dst (map Display vs)) (copy_tag src dst s)) in
+    children s' dst = children s src ++ fst (shown_all vs) /\
+    children s' src = children s src /\
+    log s' = log s ++ [DTagRef dst] /\
+    hook_ s' = HBase.
+Proof. exact copy_independent. Qed.
+Print Assumptions C17_copy_independent.
+
 (* ---- non-vacuity ------------------------------------------------------------------------ *)
 (* three levels, an exception raised in the innermost block after one display, statements
    after it at every level:
@@ -234,3 +269,17 @@ Example C17_example_second_use :
   let r := run [With 0 []; With 0 []] ex_init in
   snd r = Raised RuntimeError /\ log (fst r) = [DTagRef 0] /\ hook_ (fst r) = HBase.
 Proof. vm_compute. repeat split; reflexivity. Qed.
+
+(* sessions: a copy taken before first use is entered and collects on its own; a copy taken
+   after the original's block finished inherits the saved hook and cannot be entered *)
+Example C17_example_copies :
+  let r := run_top [TCopy 0 1; TStmt (With 1 [Display (DText [97])]);
+                    TStmt (With 0 [Display (DText [98])]); TCopy 0 2;
+                    TStmt (With 2 [Display (DText [99])])] (init_state HBase (fun _ => [CText [107]])) in
+  snd r = Raised RuntimeError /\ hook_ (fst r) = HBase /\
+  children (fst r) 1 = [CText [107]; CText [97]] /\
+  children (fst r) 0 = [CText [107]; CText [98]] /\
+  children (fst r) 2 = [CText [107]; CText [98]] /\
+  log (fst r) = [DTagRef 1; DTagRef 0] /\
+  (0 <> 1)%nat /\ prev (init_state HBase (fun _ => [CText [107]])) 0 = HNone.
+Proof. vm_compute. repeat split; try reflexivity. discriminate. Qed.
